@@ -6,10 +6,40 @@ what `Group.extract_bbox` computes from the current tree (an artboard caches its
 `SameObs s s'`: `s'` differs from `s` in caches only. All statements are about `Cfg.current`
 (the repaired code); `legacy_…` are the machine-checked counterexamples of the snapshot.
 -/
-import PsdVerif.Lemmas.TreeFresh
+import PsdVerif.Lemmas.TreeFreshStep
 
 namespace PsdVerif.C14
 open PsdVerif PsdVerif.TreeSt
+
+/-! ### Derived values are never stale -/
+
+theorem fresh_init (limit : Nat) : Fresh (State.empty limit) := by
+  intro g _ _ b hb
+  cases hb
+
+/-- **Freshness step.** From a well-formed tree whose cached boxes are fresh, an operation (under
+the guard of the inserting operations and below the recursion limit; refused operations included)
+leaves every cached box of a layer that is in a document equal to what `Group.extract_bbox`
+computes from the new tree. The proof needs all five cache repairs (`CacheCfg`). -/
+theorem fresh_step (s : State) (op : Op) (i : Inv s) (f : Fresh s) (hg : Guard s op)
+    (hne : (step .current s op).2 ≠ .error .recursionError) : Fresh (step .current s op).1 :=
+  (good_step s op ⟨i, f⟩ hg hne).fresh
+
+/-- over histories: whatever was read or edited before -/
+theorem fresh_history (s : State) (ops : List Op) (i : Inv s) (f : Fresh s) (hg : Guarded .current s ops) :
+    Fresh (runState .current s ops) :=
+  (good_run s ops ⟨i, f⟩ hg).fresh
+
+/-- hence, at every point of a guarded history from the empty store, the box answered for a layer
+that is in a document is the fresh one -/
+theorem answers_fresh_history (ops : List Op) (limit : Nat) (hg : Guarded .current (State.empty limit) ops) (x : Id)
+    (ha : Attached (runState .current (State.empty limit) ops) x) :
+    (obsBbox (runState .current (State.empty limit) ops) x).2 = bboxAnswer (runState .current (State.empty limit) ops) x := by
+  have hgood := good_run _ ops ⟨inv_empty limit, fresh_init limit⟩ hg
+  by_cases hc : (runState .current (State.empty limit) ops).cont x = true
+  · exact obsBbox_answer x (hgood.fresh x ha hc)
+  · unfold obsBbox bboxAnswer
+    simp [hc]
 
 /-! ### Read-only operations are pure -/
 
@@ -83,6 +113,19 @@ theorem legacy_hidden_group_below_stale :
 theorem hidden_group_below_refreshed :
     let s := runState .current nested [.observe (.bbox 2), .setVisible 1 false]
     s.cache 2 = none := by decide
+
+theorem demo_inv : Inv demo := by
+  have i4 : Inv (runState .current (State.empty 50)
+      [.newDoc ⟨0, 0, 8, 8⟩, .newLayer (some 0) ⟨0, 0, 2, 2⟩, .newGroup (some 0), .newLayer (some 0) ⟨1, 1, 3, 3⟩]) :=
+    inv_run _ _ (inv_empty 50) ⟨trivial, by decide, trivial, by decide, trivial, by decide, trivial, by decide, trivial⟩
+  exact inv_step _ (.append 0 1) i4 (detached_of_bounded i4 (by decide)) (by decide)
+
+/-- non-vacuity of `fresh_step`: a guarded edit from a state with a filled, fresh cache that the
+edit must (and does) drop -/
+example : (step .current demo (.observe (.bbox 2))).1.cache 2 = some BBox.zero ∧
+    Guard (step .current demo (.observe (.bbox 2))).1 (.append 2 3) ∧
+    Inv (step .current demo (.observe (.bbox 2))).1 :=
+  ⟨by decide, detached_of_bounded ((observe_same demo _).inv demo_inv) (by decide), (observe_same demo _).inv demo_inv⟩
 
 /-- **Known finding** `C14/bbox-stale/detached-node-with-stale-parent`: why `Fresh` speaks about
 layers that are in a document. A layer removed from a group keeps its parent pointer; its
